@@ -232,10 +232,9 @@ func cmpString(lhs, rhs String[Symbol]) int {
 
 // hashFuncForString creates a HashFunc for hashing strings of symbols.
 func hashFuncForString() hash.HashFunc[String[Symbol]] {
-	h := fnv.New64()
-
 	return func(s String[Symbol]) uint64 {
-		h.Reset()
+		// A hasher per call: this function is shared by all instances and goroutines.
+		h := fnv.New64()
 		_, _ = WriteString(h, s) // Hash.Write never returns an error
 		return h.Sum64()
 	}
